@@ -13,6 +13,12 @@ def judge(case):
     kinks = ("ties" in pats) or ("with_zeros" in pats and case["op"] in ("relu", "leaky_relu", "selu"))
     name = case["op"] + ("" if case.get("form", "fn") == "fn" else ":" + case["form"])
     viol, info = gradcheck.check(runner, arrays, cat.diff_idx(case, arrays), name, kinks=kinks)
+    if info.get("accepted") and not viol and info.get("rows") is not None and any(a.ndim >= 2 and a.size > 1 for a in arrays):
+        def nocopy(arrs, rg):
+            cat.COPY = False
+            try: return cat.run_lib(case, arrs, rg)
+            finally: cat.COPY = True
+        viol += gradcheck.check_layouts(nocopy, arrays, cat.diff_idx(case, arrays), name, info["rows"], gradcheck.LAYOUTS)
     nt = bool(info.get("accepted") and info.get("nonzero"))
     return {"nontrivial": nt, "outcome": "accepted" if info.get("accepted") else "rejected", "violations": viol}
 
